@@ -61,6 +61,13 @@ def gen_lines(ctx):
     for c in ([69, 132, 160, 65, 128, 165, 95] if not thorough else EDGE_CODES):
         for v in ("-", "0", "2", "8", "16", "26", "10", "31"):
             L.append("srvd udp con %s %d" % (v, c))
+    # ... and a request that comes SECOND on its connection, after one that carried another (or no) No-Response value: nothing of
+    # the earlier request's option may be left in the connection (seeded C20-T: a recycled response writer)
+    for c in ([69, 132, 160, 65] if not thorough else EDGE_CODES):
+        for v in ("-", "0", "2", "16", "26"):
+            for pv in ("-", "0", "2", "8", "16", "26", "31"):
+                if pv != v:
+                    L.append("srvp udp %s %s %d %s" % (rng.choice(["con", "non"]), v, c, pv))
     for c in codes:
         for v in vals:
             L.append("srv udp con %s %d" % (v, c))
@@ -127,6 +134,8 @@ def dl(l):
         return "srv %s %s %s %s" % (f[1], f[2], f[3], f[4])
     if f[0] == "srvd":
         return "srv " + " ".join(f[1:])
+    if f[0] == "srvp":
+        return "srv " + " ".join(f[1:5])
     if f[0] in ("srvmux", "srvbw", "srvh"):
         return "srv %s %s %s %s" % (f[1], f[2], f[3], f[4])
     if f[0] == "srvmw":
